@@ -84,6 +84,19 @@ PROPS = {
                     'field only with stopBy neighbor and only when <= 1 child carries the field; a per-rule work limit (400 ms) stops cubic rule/tree combinations (counted, no verdict).'),
         assumptions=['sources containing MISSING or zero-width nodes are skipped (statement)', 'evaluations with an ambiguous field carry no verdict (statement)'],
     ),
+    'C04': dict(
+        engines=[('vmon', 'c04')],
+        technique='runtime monitoring: functional reference evaluator with environments (failure cannot leak) vs implementation outcome and environment, on decoy-laden permuted sources',
+        rule=('rule documents whose sub-patterns SHARE variable names ($A,$B,$F,$$$R) across all/any/not/has/inside/follows/precedes/matches (local utilities, one optional global utility with '
+              'constraints) and rule-level constraints; 3/4 of the bodies come from targeted shapes (relation over not/all/any/nested relation/utility with decoys), the rest from the random rule '
+              'generator. (a) synthetic JavaScript sibling lists f(1); g(2); { h(1); } last(); ... evaluated under permutations of the statements, (b) excerpts of all 23 corpus languages with '
+              'patterns cut from them and variables renamed into the shared pool. For every node: outcome and the full environment (single and multi captures by byte range, label `secondary` ignored) '
+              'must equal the reference. evaluations = (document, source, node) triples. Non-trivial = distinct documents in which some name occurs in >= 2 patterns and which match >= 1 node and reject >= 1 node.'),
+        floor={'quick': 1000000, 'thorough': 20000000},
+        level_text='Millions of (rule, node) evaluations with shared variable names; environments compared exactly; held on the documents and permutations executed.',
+        level_note=('Trusted: refsem/rule_env.rs (conjunction order atomic->composite->relational as documented, `any` first winning branch, relations nearest-first with every candidate starting from the '
+                    'incoming environment), Pattern atoms delegated to the real Pattern on a fresh env copy. nthChild.ofRule is restricted to kind/regex here (its capturing form is C05\'s known finding).'),
+    ),
 }
 
 NOT_APPLICABLE = {}
